@@ -517,6 +517,26 @@ theorem C01_asFound_sassLoudComment_diverges : ∀ fuel, sassLoudAsFound fuel d2
 theorem C01_sassLoudComment_now_errors :
     sassLoudBody d2Input 4 = .err .expectedMoreInput (.cur 7) := by decide +kernel
 
+/-! ### what is proved of the whole property, in one statement -/
+
+/-- **PARTIAL.**  The part of `C01_full` that is a theorem: for every modelled scanner, syntax, token
+    buffer and cursor inside it — the scan terminates (definition accepted without fuel), a successful
+    scan ends between the start and the end of the buffer, at the end of the buffer it answers at once,
+    and whatever span an error carries lies inside the lexed file on character boundaries.
+    MISSING for `C01_full`: the statement-level loops of the three stylesheet parsers (indentation
+    tracking, `parse_statements`/`parse_children`), the expression, selector and media-query parsers,
+    the evaluator, @extend, the serializer (all only TESTED by tools/props/c01.py), stack exhaustion on
+    deep nesting, allocation failure. -/
+theorem C01_scanner_layer_total_partial (sc : Scanner) (y : Syn) (src : List Char) (i : Nat)
+    (hi : i ≤ (kinds (lex src)).toArray.size) :
+    (∀ j, runScanner sc y (kinds (lex src)).toArray i = .ok j → i ≤ j ∧ j ≤ (kinds (lex src)).toArray.size) ∧
+    (i = (kinds (lex src)).toArray.size → eofAnswer i (runScanner sc y (kinds (lex src)).toArray i)) ∧
+    (∀ e sp, runScanner sc y (kinds (lex src)).toArray i = .err e sp →
+      spanInFile src (spanBytes (lex src).toArray sp).1 (spanBytes (lex src).toArray sp).2 = true) :=
+  ⟨fun j h => C01_scan_progress sc y _ i j hi h,
+   fun h => C01_scan_eof sc y _ i (by omega),
+   fun e sp h => C01_scan_error_located sc y src i e sp h⟩
+
 /-! ### the full property (not proved) -/
 
 /-- What one compilation can do, seen from outside. -/
